@@ -45,6 +45,9 @@ CURATED = ["[-10 TO -1]", "f:[-10 TO -1]", "([-3 TO -1])^2", "NOT [-5 TO -2]", "
            "a AND [-2 TO -1] OR b", "f:(a [-2 TO -1])", "+[-2 TO -1] -[3 TO 4]", ">-1 AND <=-5", "f:>=\"a b\" g", "NOT -a", "+-a b", "NOT (a b)^2 c~"]
 
 
+FRAGMENTS = ["title: foo", "a", "(b)", "f:(x y)", "\"p q\"", "-z", "[1 TO 2]", "k^2", "title:foo", "NOT x", " lead", "trail ", "t: \"u v\"~2 ", "g:[1 TO  2]"]
+
+
 def check(item):
     fails = []
     seq, tricky = item
@@ -55,6 +58,30 @@ def check(item):
         return 0, []
     cands = [("layout-free", gen.strip_layout(t0)), ("partial0", partial(t0, 0)), ("partial1", partial(t0, 1)),
              ("parsed-edited0", edited(t0, 0)), ("parsed-edited1", edited(t0, 1))]
+    extras = len(seq) <= 5 or isinstance(seq, str) or (sum(len(x) for x in seq) % 3 == 0)      # longer sequences: every third one
+    # the parsed tree itself, with blanks other than a single space: nothing may be altered
+    try:
+        if not extras:
+            raise LookupError
+        cands.append(("parsed-exotic-blanks", parser.parse(q.replace(" ", "\t ").replace("\t \t ", " \n"))))
+    except Exception:  # noqa: BLE001
+        pass
+    # parsed fragments grafted below hand-built nodes (the documented use: add a filter to / negate a user query)
+    import copy
+    k = sum(len(x) for x in q) % len(FRAGMENTS)
+    try:
+        if not extras:
+            raise LookupError
+        frag = parser.parse(FRAGMENTS[k])
+
+        def operand(x):
+            # a shape the grammar can express: an operation (or a prefixed expression, which would swallow what follows) as operand sits in parentheses
+            x = copy.deepcopy(x)
+            return T.Group(x) if isinstance(x, (T.BaseOperation, T.Plus, T.Prohibit, T.Not)) else x
+        cands += [("grafted-and", T.AndOperation(operand(t0), operand(frag))), ("grafted-or-first", T.OrOperation(T.Word("hand"), operand(t0))),
+                  ("grafted-not", T.Not(operand(frag))), ("grafted-implicit", T.UnknownOperation(operand(frag), operand(t0), T.Word("w")))]
+    except Exception:  # noqa: BLE001
+        pass
     n = 0
     for kind, t in cands:
         n += 1
@@ -100,7 +127,7 @@ def main():
     rest, hit = classify(failures, p.get("known", []))
     emit({"ok": not rest, "evaluations": sum(r[0] for r in res), "distinct_nontrivial": len([s for s in seqs if len(s) > 1]) + len(CURATED),
           "rule": "every accepted token-type sequence of <= %d tokens (enumerated by DFS over the live LALR automaton), rendered "
-                  "with distinct words (every third one also with texts that probe token boundaries: escapes, quotes inside phrases, reserved words in other case), + %d curated queries (signed / quoted range bounds, prefixes and suffixes around ranges); parsed, stripped of layout (fully / every other node); non-trivial = more than one token"
+                  "with distinct words (every third one also with texts that probe token boundaries: escapes, quotes inside phrases, reserved words in other case), + %d curated queries (signed / quoted range bounds, prefixes and suffixes around ranges); parsed, stripped of layout (fully / every other node / parsed and then edited / parsed with tabs and line breaks / parsed fragments grafted below hand-built operations and NOT); non-trivial = more than one token"
                   % (p["max_tokens"], len(CURATED)),
           "bound": "token sequences of length <= %d" % p["max_tokens"],
           "samples": [{"tokens": list(seqs[len(seqs) // 2]), "query": gen.render(seqs[len(seqs) // 2])}],
